@@ -267,6 +267,11 @@ class Machine:
             assert isinstance(ms, MapSort)
             extra = {"keys": seq_of(ms.key).fresh(hint + "_keys")} if sortname.startswith("ODict[") else {}
             return VHeapRef(self.ctx.alloc("dict", ms.fresh(hint), extra), "dict")
+        if sortname.startswith("Set["):
+            from .maps import SetSort, parse_container_sort
+            ss = parse_container_sort(sortname)
+            assert isinstance(ss, SetSort)
+            return VHeapRef(self.ctx.alloc("set", ss.wrap(z3.Const(fresh_name(hint), ss.z3()))), "set")
         if sortname.startswith("Iter["):
             es = get_sort(sortname[5:-1])
             return VHeapRef(self.ctx.alloc("iter", seq_of(es).fresh(hint)), "iter")
@@ -1030,6 +1035,25 @@ class Machine:
         raise EngineError(f"{self.contract.key}: unresolved name {n}")
 
     def ex_Tuple(self, e: ast.Tuple, hint: str | None = None) -> V:
+        if any(isinstance(x, ast.Starred) for x in e.elts):
+            # (*xs, y, ...) with a symbolic sequence xs: the concatenation, as a sequence value
+            parts_v = [(True, self.eval(x.value)) if isinstance(x, ast.Starred) else (False, self.eval(x)) for x in e.elts]
+            seqs = [self.seq_value(v) if not isinstance(v, VSeq) else v for st, v in parts_v if st]
+            if any(sv is not None for sv in seqs) and not all(isinstance(v, VTuple) for st, v in parts_v if st):
+                ssort = next(sv for sv in seqs if sv is not None).sort
+                terms = []
+                for st, v in parts_v:
+                    if st:
+                        sv = self.seq_value(v) if not isinstance(v, VSeq) else v
+                        if sv is None:
+                            sv = ssort.coerce(v)
+                        terms.append(sv.term)
+                    else:
+                        terms.append(z3.Unit(ssort.elem.coerce(v).term))
+                t = terms[0] if len(terms) == 1 else z3.Concat(*terms)
+                if len(terms) == 2 and not parts_v[1][0]:
+                    self.ctx.bank.add(t, ("snoc", terms[0], terms[1].arg(0)))
+                return VSeq(t, ssort)
         items: list[V] = []
         for x in e.elts:
             if isinstance(x, ast.Starred):
@@ -1616,6 +1640,10 @@ class Machine:
             return VStr(z3.SubString(obj.term, lo_t, z3.If(hi_t - lo_t < 0, 0, hi_t - lo_t)))
         s = self.seq_value(obj)
         if s is None:
+            for h in getattr(self.world, "slice_hooks", []):
+                r = h(self, obj, lo, hi)
+                if r is not None:
+                    return r
             raise EngineError(f"slice of {obj!r}")
         n = z3.Length(s.term)
         # common shapes get a decomposition instead of Extract arithmetic
